@@ -18,9 +18,17 @@ RULE = ("(a) constructor round-trips of named_vector / named_covariance / make_r
         "names, wrong shapes) vs the Lean bindVec/bindCov/fromData; (b) metamorphic: each definition and a renamed twin whose sort order "
         "is permuted, and a re-declared twin (shuffled order, set vs list), through the Python model and filter (predict, update) and the "
         "generated C++ (model, predict, update via named accessors); distinct by (definition, renaming, input); non-trivial = renaming "
-        "permutes the state layout")
+        "permutes the state layout; (c) fixed stream fit-declaration-order: SklearnEKFAdapter estimators over the same model, noises and data that differ "
+        "only in the order in which the readings of a sensor are written in its sensor_noises dict (2-3 readings with case/digit/underscore "
+        "names, unequal noises): score before fit and the fitted noises read back by name agree with the name-ordered declaration; "
+        "(d) fixed stream from-data-same-count: arrays holding the right NUMBER of values in the wrong shape (row / flat / block / extra axis "
+        "for vectors, column / flat / row for covariances; on bare named types and on a compiled filter's State, Control, Covariance and "
+        "make_reading(data=)) are rejected, and the exact shape is accepted with every value read back under its own name")
 NOTE = ["renaming invariance is a theorem about the model (C13.rename_invariant, via the by-name refinement of C01); the harness checks the "
-        "implementation's named outputs for original vs twin directly (oracle) and against the Lean model"]
+        "implementation's named outputs for original vs twin directly (oracle) and against the Lean model",
+        "fit-declaration-order is metamorphic (the name-ordered declaration is the reference; a reference fit that does not converge is "
+        "counted and skipped); from-data-same-count uses the statement itself as the oracle (shape equality, values by name); neither "
+        "draws from the shared random stream"]
 PARTIAL = ["C++ side observed through g++ and the Eigen stand-in"]
 
 
@@ -274,6 +282,144 @@ def foreign_objects(ctx):
                      "(its values are then used by position)", case)
 
 
+def fit_declaration_order(ctx):
+    """the noises an estimator is declared with - and the noises fit() leaves it with - belong to the reading NAMES: writing the
+    readings of a sensor in its sensor_noises dict in another order changes nothing that is read back by name"""
+    from formak import python, ui
+    dt = ui.Symbol("dt")
+
+    def cart():
+        x, v, a = ui.symbols(["x", "v", "a"])
+        return (dict(dt=dt, state={x, v}, control={a}, state_model={x: x + dt * v, v: v + dt * a}), {a: 1.0},
+                {"gps": {"pos": x, "vel": v}})
+
+    def traps():
+        p, q, u = ui.symbols(["B_1", "B1", "u"])
+        return (dict(dt=dt, state={p, q}, control={u}, state_model={p: p + dt * q, q: q + dt * u}), {u: 0.25},
+                {"s_B": {"Zb": p, "a1": q, "a_1": p + q}})
+
+    # noises by name; unequal inside a sensor, so that a value landing on another reading is a different filter.  Only the order of
+    # the readings INSIDE a sensor is varied: there the reference and the twin run the same arithmetic, whereas another order of the
+    # sensors reorders a floating-point sum inside score(), which the optimiser may amplify (no statement about that is made here)
+    streams = [("cart", cart, {"gps": {"pos": 0.25, "vel": 4.0}}, 8, [("reversed", lambda ks: ks[::-1])]),
+               ("trap-names", traps, {"s_B": {"Zb": 3.0, "a1": 10.0, "a_1": 6.0}}, 6,
+                [("reversed", lambda ks: ks[::-1]), ("rotated", lambda ks: ks[1:] + ks[:1])])]
+    for label, build, noises, rows, orders in streams:
+        data_rng = np.random.default_rng(1313)
+        n_read = sum(len(v) for v in noises.values())
+        # columns: the control, then the readings of each sensor in name order (sensors in name order); readings of unequal spread
+        X = np.column_stack([np.zeros(rows)] + [data_rng.normal(scale=0.5 * (1 + j), size=rows) for j in range(n_read)])
+
+        def estimator(order):
+            kw, process, sensors = build()
+            declared = {k: {r: float(noises[k][r]) for r in order(sorted(noises[k]))} for k in sorted(noises)}
+            return python.SklearnEKFAdapter(ui.Model(**kw), process_noise=dict(process), sensor_models={k: dict(v) for k, v in sensors.items()},
+                                            sensor_noises=declared, config=python.Config()), declared
+
+        def fitted(order):
+            est, declared = estimator(order)
+            with fk.quiet():
+                pre = float(est.score(X))
+                est.fit(X)
+            return pre, {k: {str(r): float(v) for r, v in est.sensor_noises[k].items()} for k in est.sensor_noises}, \
+                {k: list(v) for k, v in declared.items()}
+
+        try:
+            ref_pre, ref_fit, _ = fitted(lambda ks: list(ks))
+        except Exception as e:
+            if type(e).__name__ == "MinimizationFailure":
+                ctx.count("fit_order_reference_did_not_converge"); continue
+            ctx.fail(f"adapter-raises:{fk.exc_kind(e)}:fit-order", f"fit over a valid model and finite data raises {e!r}"[:300], {"stream": label}); continue
+        for oname, order in orders:
+            case = {"stream": "fit-declaration-order", "model": label, "noises_by_name": noises, "declaration_order": oname, "rows": rows}
+            ctx.case(case, True); ctx.count("stream=fit-declaration-order")
+            try:
+                pre, fit, written = fitted(order)
+            except Exception as e:
+                ctx.fail(f"fit-order-raises:{fk.exc_kind(e)}", f"with the noise dicts written {oname} ({label}) fit raises {e!r}, with the "
+                         "name-ordered dicts it returns"[:400], case)
+                continue
+            case = dict(case, written=written)
+            if not np.isclose(pre, ref_pre, rtol=1e-9, atol=1e-12):
+                ctx.fail("fit-order:score-before-fit", f"score before fit is {pre!r} with the noise dicts written {oname}, {ref_pre!r} in name order", case)
+                continue
+            bad = [(k, r) for k in ref_fit for r in ref_fit[k]
+                   if set(fit) != set(ref_fit) or set(fit[k]) != set(ref_fit[k]) or not np.isclose(fit[k][r], ref_fit[k][r], rtol=1e-6, atol=1e-9)]
+            if bad:
+                k, r = bad[0]
+                ctx.fail("fit-order:fitted-noise", f"fitted noise of reading {r!r} of sensor {k!r} is {fit.get(k, {}).get(r)!r} with the noise dicts written "
+                         f"{oname} and {ref_fit[k][r]!r} written in name order (same names, same values, same data)", case)
+
+
+def from_data_same_count(ctx):
+    """an array with the right NUMBER of values but another shape is a wrong shape: it is rejected, not re-laid-out; the exact
+    shape is accepted and each value is then read back under its own name"""
+    from formak import common, python, ui
+    pool = ["Zb", "a1", "a_1", "B", "zb"]
+
+    def wrong_shapes(kind, n):
+        if kind == "vector":
+            cands = [(n,), (1, n), (n, 1, 1), (1, n, 1)] + ([(2, 2)] if n == 4 else [])
+            right = (n, 1)
+        else:
+            cands = [(n * n,), (n * n, 1), (1, n * n), (n, n, 1)]
+            right = (n, n)
+        return [s for s in dict.fromkeys(cands) if s != right], right
+
+    def probe(label, kind, cls, from_data, read_back):
+        names = [str(a) for a in cls._arglist]       # the type's own layout: position i of exactly shaped data is its i-th name
+        n = len(names)
+        wrong, right = wrong_shapes(kind, n)
+        count = n if kind == "vector" else n * n
+        values = np.arange(1.0, count + 1.0)
+        if kind == "covariance":       # a symmetric positive definite table of distinct entries
+            values = (np.arange(1.0, n * n + 1.0).reshape((n, n)) + np.arange(1.0, n * n + 1.0).reshape((n, n)).T) / 8.0 + n * n * np.eye(n)
+        for shape in wrong:
+            case = {"stream": "from-data-same-count", "through": label, "kind": kind, "names": names, "offered_shape": list(shape), "type_shape": list(right)}
+            ctx.case(case, True); ctx.count("stream=from-data-same-count"); ctx.count(f"same_count_wrong_shape={kind}")
+            try:
+                with fk.quiet():
+                    obj = from_data(np.array(values, dtype=float).reshape(shape))
+            except Exception:
+                continue
+            ctx.fail(f"from-data-same-count:{kind}", f"{label}: data of shape {shape} offered for the shape {right} over {names} is accepted and "
+                     f"stored as {np.asarray(getattr(obj, 'data', obj)).tolist()}", case)
+        case = {"stream": "from-data-same-count", "through": label, "kind": kind, "names": names, "offered_shape": list(right), "type_shape": list(right)}
+        ctx.case(case, n >= 2); ctx.count("from_data_exact_shape")
+        try:
+            with fk.quiet():
+                got = read_back(from_data(np.array(values, dtype=float).reshape(right)))
+        except Exception as e:
+            ctx.fail(f"from-data-exact-shape-raises:{kind}", f"{label}: data of the exact shape {right} raises {e!r}"[:300], case)
+            return
+        want = ({a: float(values[i]) for i, a in enumerate(names)} if kind == "vector"
+                else {(a, b): float(values[i, j]) for i, a in enumerate(names) for j, b in enumerate(names)})
+        if got != want:
+            ctx.fail(f"from-data-exact-shape:{kind}", f"{label}: data of the exact shape read back by name gives {got}, expected {want}", case)
+
+    for n in range(1, 5):
+        names = sorted(pool[:n])
+        vec, cov = common.named_vector("X", [sympy.Symbol(x) for x in names]), common.named_covariance("X", [sympy.Symbol(x) for x in names])
+        probe("named_vector", "vector", vec, vec.from_data, fk.by_name)
+        probe("named_covariance", "covariance", cov, cov.from_data, fk.cov_by_name)
+    # the same through the types of a compiled filter
+    dt = ui.Symbol("dt")
+    p, q, w, u, t = ui.symbols(["B_1", "B1", "b", "u", "U_2"])
+    try:
+        with fk.quiet():
+            ekf = python.compile_ekf(
+                ui.Model(dt=dt, state={p, q, w}, control={u, t}, state_model={p: p + dt * q, q: q + dt * u, w: w + dt * t}),
+                process_noise={u: 1.0, t: 0.5}, sensor_models={"s_B": {"a_1": q, "Zb": p, "a1": p + w}, "S_a": {"r2": w, "r10": p - q}},
+                sensor_noises={"s_B": {"a_1": 1.0, "Zb": 0.25, "a1": 4.0}, "S_a": {"r2": 2.0, "r10": 0.5}})
+    except Exception as e:
+        ctx.fail(f"run-raises:{fk.exc_kind(e)}", f"filter over a valid definition raises {e!r}"[:300], {"stream": "from-data-same-count"}); return
+    probe("filter State", "vector", ekf.State, ekf.State.from_data, fk.by_name)
+    probe("filter Control", "vector", ekf.Control, ekf.Control.from_data, fk.by_name)
+    probe("filter Covariance", "covariance", ekf.Covariance, ekf.Covariance.from_data, fk.cov_by_name)
+    for key in ("s_B", "S_a"):
+        probe(f"make_reading({key}, data=)", "vector", ekf.sensor_models[key].Reading, lambda data, key=key: ekf.make_reading(key, data=data), fk.by_name)
+
+
 def run(ctx):
     audit = core.lean_audit("C13")
     drv = core.Driver()
@@ -343,6 +489,9 @@ def run(ctx):
                    "control": [[k, core.frac_str(v)] for k, v in pt2["control"].items()]}
             pending.append(("pyrun", drv.add(req), tw["model"], case))
     cpp_twins(ctx)
+    # fixed streams (no draws from ctx.rng)
+    from_data_same_count(ctx)
+    fit_declaration_order(ctx)
     ans = drv.run()
     for kind, idx, got, info in pending:
         a = ans[idx]
